@@ -155,7 +155,7 @@ impl Oracle for TransportOracle {
                         self.short_ch
                     }
                 };
-                let property_order = self.clauses.order || self.clauses.reliable_not_skipped || self.clauses.ideal;
+                let property_order = self.clauses.order || self.clauses.reliable_not_skipped || self.clauses.ideal || self.clauses.reliable_live;
                 if !property_order {
                     return None;
                 }
@@ -334,7 +334,7 @@ impl Oracle for TransportOracle {
                                 }
                             }
                         }
-                        Probe::None => (),
+                        Probe::Rate(_) | Probe::None => (),
                     }
                     for (dst, reported) in checks {
                         self.buffer_checks += 1;
@@ -405,5 +405,174 @@ impl TransportOracle {
             Some((_, Some(peer))) => Some(*peer),
             _ => peer_of(cx.plan, ep),
         }
+    }
+}
+
+// ------------------------------------------------------------------------------------------ C11
+
+pub const PROBE_TAG: u32 = 1_000_000;
+
+/// C11: after the last fault, newly submitted packets of every mode get through, and with a
+/// standing backlog the allowed rate leaves the floor.
+pub struct RecoveryOracle {
+    property: &'static str,
+    /// (sender ep, tag) -> (mode, delivered)
+    probes: BTreeMap<(usize, u32), (u8, bool)>,
+    last_x: BTreeMap<usize, (u32, u32)>,
+    /// whether the sender could transmit at once when it was last probed
+    idle: BTreeMap<usize, bool>,
+    healed: bool,
+    delivered: u64,
+    checked_end: u64,
+    blackout_seen: bool,
+    floor_seen: bool,
+}
+
+impl RecoveryOracle {
+    pub fn new(property: &'static str) -> Self {
+        Self { property, probes: BTreeMap::new(), last_x: BTreeMap::new(), idle: BTreeMap::new(), healed: false, delivered: 0, checked_end: 0, blackout_seen: false, floor_seen: false }
+    }
+}
+
+impl Oracle for RecoveryOracle {
+    fn on(&mut self, rec: &Rec, cx: &Cx) -> Option<Violation> {
+        let prop = self.property;
+        match rec {
+            Rec::Call { op: Op::Mark { name }, .. } if name == "heal" => self.healed = true,
+            Rec::Call { op: Op::Link { rule, .. }, .. } => {
+                if rule.blackout {
+                    self.blackout_seen = true;
+                }
+            }
+            Rec::Submit { ep, tag, mode, accepted: true, .. } if *tag >= PROBE_TAG => {
+                // a TimeSensitive packet behind a backlog, or without credit or window space, is
+                // legitimately dropped by the sender: only probes submitted to an idle sender count
+                if *mode != MODE_TIME_SENSITIVE || self.idle.get(ep).cloned().unwrap_or(false) {
+                    self.probes.insert((*ep, *tag), (*mode, false));
+                }
+            }
+            Rec::Event { ev: AppEvent::Receive(p), .. } => {
+                self.delivered += 1;
+                if let Some((src, _, _, tag, _)) = parse_payload(p) {
+                    if let Some(e) = self.probes.get_mut(&(src, tag)) {
+                        e.1 = true;
+                    }
+                }
+            }
+            Rec::Probe { ep, probe: Probe::Hc(h), .. } => {
+                self.last_x.insert(*ep, (h.send_rate, h.max_send_rate));
+                let frames_free = h.tx_frame_window_size.saturating_sub(h.tx_frame_next_id.wrapping_sub(h.tx_frame_window_base_id));
+                let packets_free = h.tx_packet_window_size.saturating_sub(h.tx_packet_next_id.wrapping_sub(h.tx_packet_base_id) & 0xFFFFF);
+                self.idle.insert(*ep, h.send_queue_len == 0 && h.pending_queue_len == 0 && h.flush_alloc >= 0 && frames_free >= 2 && packets_free >= 1 && h.tx_alloc + 64 <= h.tx_max_alloc);
+                if h.send_rate <= 23 {
+                    self.floor_seen = true;
+                }
+            }
+            Rec::End { .. } => {
+                self.checked_end += 1;
+                for ((ep, tag), (mode, delivered)) in self.probes.iter() {
+                    if *mode != MODE_TIME_SENSITIVE && !*delivered {
+                        let d = format!("probe packet (endpoint {}, tag {}, {}) submitted after the last fault was never delivered ({} packets delivered in the run); sender's allowed rate at the end: {:?} B/s", ep, tag, mode_name(*mode), self.delivered, self.last_x.get(ep).map(|x| x.0));
+                        return viol(prop, "probe_not_delivered_after_heal", d, 0);
+                    }
+                }
+                let mut ts: BTreeMap<usize, (u32, u32)> = BTreeMap::new();
+                for ((ep, _), (mode, delivered)) in self.probes.iter() {
+                    if *mode == MODE_TIME_SENSITIVE {
+                        let e = ts.entry(*ep).or_insert((0, 0));
+                        e.0 += 1;
+                        e.1 += *delivered as u32;
+                    }
+                }
+                for (ep, (n, got)) in ts {
+                    if n >= 10 && got == 0 {
+                        return viol(prop, "timesensitive_probes_never_delivered", format!("none of the {} TimeSensitive probes of endpoint {} (one per second, flushed at once) submitted after the last fault was delivered", n, ep), 0);
+                    }
+                }
+                if cx.plan.param("expect_rate_recovery", 0.0) != 0.0 {
+                    for (ep, (x, ceiling)) in self.last_x.iter() {
+                        if cx.plan.param(&format!("backlog_ep{}", ep), 0.0) == 0.0 {
+                            continue;
+                        }
+                        let want = (*ceiling).min(230);
+                        if *x < want {
+                            return viol(prop, "rate_pinned_at_floor", format!("endpoint {}: allowed rate {} B/s after 600 s on a clean link with a standing backlog (ceiling {} B/s; the s/64 floor is 23 B/s)", ep, x, ceiling), 0);
+                        }
+                    }
+                }
+            }
+            _ => (),
+        }
+        None
+    }
+
+    fn reach(&self, out: &mut BTreeMap<String, u64>) {
+        let mut a = |k: &str, v: u64| *out.entry(k.to_string()).or_insert(0) += v;
+        a("recovery_runs_checked_at_end", self.checked_end);
+        a("recovery_probes_submitted", self.probes.len() as u64);
+        a("runs_with_blackout", self.blackout_seen as u64);
+        a("runs_where_rate_hit_the_floor", self.floor_seen as u64);
+    }
+
+    fn nontrivial(&self) -> bool {
+        !self.probes.is_empty() || self.checked_end > 0
+    }
+}
+
+// ------------------------------------------------------------------------------------------ C19
+
+/// C19: every block is released with the layout it was allocated with, and after every endpoint
+/// has been dropped nothing they allocated is left.
+pub struct HeapOracle {
+    property: &'static str,
+    checked: u64,
+    multi: u64,
+}
+
+impl HeapOracle {
+    pub fn new(property: &'static str) -> Self {
+        Self { property, checked: 0, multi: 0 }
+    }
+}
+
+impl Oracle for HeapOracle {
+    fn on(&mut self, rec: &Rec, _cx: &Cx) -> Option<Violation> {
+        let prop = self.property;
+        match rec {
+            Rec::Event { ev: AppEvent::Receive(p), .. } => {
+                if p.len() > uflow::MAX_FRAGMENT_SIZE && p.len() % uflow::MAX_FRAGMENT_SIZE != 0 {
+                    self.multi += 1;
+                }
+            }
+            Rec::CallEnd { call, .. } => {
+                let m = crate::alloc::mismatches();
+                if m > 0 {
+                    let (asz, aal, dsz, dal) = crate::alloc::last_mismatch();
+                    crate::alloc::reset_mismatches();
+                    return viol(prop, "dealloc_layout_mismatch", format!("a block allocated with size {} align {} was released with size {} align {}", asz, aal, dsz, dal), *call);
+                }
+            }
+            Rec::Teardown { live, mismatches } => {
+                self.checked += 1;
+                if *mismatches > 0 {
+                    let (asz, aal, dsz, dal) = crate::alloc::last_mismatch();
+                    crate::alloc::reset_mismatches();
+                    return viol(prop, "dealloc_layout_mismatch", format!("{} deallocations with a layout different from the allocation (last: allocated size {} align {}, released as size {} align {})", mismatches, asz, aal, dsz, dal), 0);
+                }
+                for (i, l) in live.iter().enumerate() {
+                    if *l != 0 {
+                        return viol(prop, "leak_after_teardown", format!("{} bytes allocated by endpoint {} are still live after every endpoint was dropped", l, i), 0);
+                    }
+                }
+            }
+            _ => (),
+        }
+        None
+    }
+
+    fn reach(&self, out: &mut BTreeMap<String, u64>) {
+        let mut a = |k: &str, v: u64| *out.entry(k.to_string()).or_insert(0) += v;
+        a("teardowns_checked", self.checked);
+        a("multi_fragment_non_multiple_deliveries", self.multi);
     }
 }
